@@ -14,7 +14,7 @@ Definition E_wit : env :=
      e_fmt := fun c f => if N.eqb c 1 && N.eqb f 1 then [it_fc] else [];
      e_user := fun o => if N.eqb o 0 then [it_st] else [];
      e_parse := fun k => if str_eqb k (lit "sel") then Some tree_sel else None;
-     e_qexpr := fun _ => None; e_sdef := fun _ => [];
+     e_accepts := fun _ _ => true; e_qexpr := fun _ => None; e_sdef := fun _ => [];
      e_bkvars := fun _ => []; e_fmtvars := fun _ _ => []; e_uservars := fun _ => [];
      e_src := fun _ => SigmaErr 8;
      e_files := [] |}.
